@@ -16,8 +16,8 @@ Out == BagOf(T.result)
 Tally == Rat2(T.tally)
 Clause ==
   IF T.error # "" THEN
-       (IF T.op = "random" /\ ~IntegerBag(P) /\ T.error = "TypeError" THEN "" ELSE "Error:" \o T.error)
-  ELSE IF T.op = "random" /\ ~IntegerBag(P) THEN "NonIntegerAccepted"
+       (IF T.op = "random" /\ T.nonint /\ T.error = "TypeError" THEN "" ELSE "Error:" \o T.error)
+  ELSE IF T.op = "random" /\ T.nonint THEN "NonIntegerAccepted"       \* nonint: some *ballot* of the list has a non-integer weight
   ELSE IF T.winner \in CandsCast(Out) THEN "MentionsWinner"
   ELSE IF RLt(Total(P), Total(Out)) THEN "CreatesVotes"
   ELSE IF T.op = "fractional" THEN (IF Out = FractionalResult(P, T.winner, Tally, T.thr) THEN "" ELSE "Weights")
